@@ -129,6 +129,16 @@ def check_programs(tier, seed):
         jobs.append(("call-zero-prior", call.program, ["mchap", "call", "--bam"] + bams + ["--ploidy", "4", "--haplotypes", zero_vcf, "--prior-frequencies", "AFP", "--mcmc-steps", "200", "--mcmc-burn", "100"] + full_rp))
         jobs.append(("call-exact-zero-prior", call_exact.program, ["mchap", "call-exact", "--bam"] + bams + ["--ploidy", "4", "--haplotypes", zero_vcf, "--prior-frequencies", "AFP"] + full_rp))
         jobs.append(("call-pedigree-zero-prior", call_pedigree.program, ["mchap", "call-pedigree", "--bam"] + bams + ["--ploidy", "4", "--haplotypes", zero_vcf, "--prior-frequencies", "AFP", "--sample-parents", os.path.join(data, "simple.pedigree.132.txt"), "--gamete-error", "0.1", "--mcmc-steps", "200", "--mcmc-burn", "100"] + full_rp))
+        # mixed-ploidy pedigree (4x, 2x founders, 3x progeny) with masked / zero-prior alleles: GT has exactly `ploidy` entries
+        ped_f = os.path.join(tmp, "ped.txt")
+        open(ped_f, "w").write("SAMPLE1\t.\t.\nSAMPLE3\t.\t.\nSAMPLE2\tSAMPLE1\tSAMPLE3\n")
+        plo_f = os.path.join(tmp, "ploidy.txt")
+        open(plo_f, "w").write("SAMPLE1\t4\nSAMPLE2\t3\nSAMPLE3\t2\n")
+        tau_f = os.path.join(tmp, "tau.txt")
+        open(tau_f, "w").write("SAMPLE1\t2\t2\nSAMPLE2\t2\t1\nSAMPLE3\t1\t1\n")
+        expect_ploidy = {"call-pedigree-mixed-ploidy": {"SAMPLE1": 4, "SAMPLE2": 3, "SAMPLE3": 2}}
+        jobs.append(("call-pedigree-mixed-ploidy", call_pedigree.program, ["mchap", "call-pedigree", "--bam"] + bams + ["--haplotypes", mock, "--sample-parents", ped_f, "--ploidy", plo_f, "--gamete-ploidy", tau_f, "--gamete-error", "0.1", "--prior-frequencies", "AFP", "--filter-input-haplotypes", "AFP>=0.1", "--mcmc-steps", "200", "--mcmc-burn", "100"] + full_rp))
+        jobs.append(("call-pedigree-mixed-ploidy", call_pedigree.program, ["mchap", "call-pedigree", "--bam"] + bams + ["--haplotypes", zero_vcf, "--sample-parents", ped_f, "--ploidy", plo_f, "--gamete-ploidy", tau_f, "--gamete-error", "0.1", "--prior-frequencies", "AFP", "--mcmc-steps", "200", "--mcmc-burn", "100"] + full_rp))
         fasta = pysam.FastaFile(ref)
         for name, cls, cmd in jobs:
             inp0 = {"program": name, "command": " ".join(os.path.basename(a) if "/" in a else a for a in cmd[1:])}
@@ -178,6 +188,9 @@ def check_programs(tier, seed):
                     d = dict(zip(keys, vals))
                     gt = d["GT"].replace("|", "/").split("/")
                     ploidy = len(gt)
+                    want_pl = expect_ploidy.get(name, {}).get(samples[len(gts)])
+                    if want_pl is not None and ploidy != want_pl:
+                        bad("rt/gt_has_ploidy_entries", inp, {samples[len(gts)]: d["GT"]}, want_pl, "GT has exactly the sample's ploidy entries (mixed-ploidy pedigree)")
                     called = [int(a) for a in gt if a != "."]
                     gts.append(called)
                     if any(a > n_alt for a in called) or called != sorted(called) or gt != [str(a) for a in called] + ["."] * (ploidy - len(called)):
